@@ -1,3 +1,115 @@
-"""translator tie for C05 (filled in below)"""
+"""Translator tie (DESIGN 2.2): regenerate coq/Gen/*.v from the C source of $VERIF_REPO, re-check the
+Kernel proofs over the regenerated definitions, validate the translator against the compiled C code."""
+import os, sys
+sys.path.insert(0, os.path.dirname(os.path.abspath(__file__)))
+import vlib, c2coq
+FUNCS = ['secp256k1_fe_mul_inner', 'secp256k1_fe_sqr_inner']
+# branch-free primitives (C06/C05): (function, value-returning callees it may call)
+CT_FUNCS = [('secp256k1_scalar_is_zero', []), ('secp256k1_scalar_cmov', []), ('secp256k1_fe_impl_cmov', []), ('secp256k1_fe_storage_cmov', []),
+            ('secp256k1_int_cmov', []), ('secp256k1_scalar_check_overflow', []), ('secp256k1_scalar_is_high', []),
+            ('secp256k1_scalar_cond_negate', ['secp256k1_scalar_is_zero']), ('secp256k1_scalar_negate', ['secp256k1_scalar_is_zero']),
+            ('secp256k1_fe_impl_normalize', []), ('secp256k1_fe_impl_normalize_weak', []), ('secp256k1_fe_impl_normalizes_to_zero', []),
+            ('secp256k1_fe_impl_negate_unchecked', []), ('secp256k1_fe_impl_add', []), ('secp256k1_fe_impl_half', []), ('secp256k1_fe_impl_is_odd', [])]
+PROOFS = {'secp256k1_fe_mul_inner': ('Kernel/Field5x52.vo', 'fe_mul_inner_correct'),
+          'secp256k1_fe_sqr_inner': ('Kernel/Field5x52Sqr.vo', 'fe_sqr_inner_correct')}
+
+def regenerate(funcs=None):
+    """returns {fn: (ok, message)}; writes Gen/<short>.v only when its content changes"""
+    gen = os.path.join(vlib.COQ, 'Gen'); os.makedirs(gen, exist_ok=True)
+    res = {}; specs = {}
+    for item in (funcs or [(f, []) for f in FUNCS]):
+        fn, deps = item
+        short = fn.replace('secp256k1_', ''); path = os.path.join(gen, short + '.v')
+        try:
+            if any(d not in specs for d in deps): raise c2coq.Unsupported('a function it calls could not be translated')
+            text, ins, outs = c2coq.translate(vlib.REPO, fn, callees={d: specs[d] for d in deps}, requires=[d.replace('secp256k1_', '') for d in deps])
+            specs[fn] = c2coq.translate.last.param_spec
+            text = text.replace(vlib.REPO, '<repo>')
+            if not os.path.exists(path) or open(path).read() != text + '\n':
+                open(path, 'w').write(text + '\n')
+            res[fn] = (True, '%d inputs, %d outputs, %d lets' % (len(ins), len(outs), text.count(' let ')))
+        except c2coq.Unsupported as e:
+            res[fn] = (False, 'translator cannot translate: ' + str(e))
+    return res
+
+def limb_cases(rng, n, nin):
+    """limb vectors within the magnitude contract (limbs < 2^56, top limb < 2^52), biased to carries"""
+    out = []
+    for i in range(n):
+        v = []
+        for j in range(nin):
+            top = (j % 5 == 4); w = 52 if top else 56
+            c = rng.below(7)
+            v.append([0, 1, (1 << w) - 1, (1 << w) - 2, (1 << 52) - 1 if not top else (1 << 48) - 1, rng.bits(w), 1 << (w - 1)][c])
+        out.append(v)
+    return out
+
+RAW_SHAPES = {   # input shapes of the raw ops: S scalar limbs (4 x u64), F field limbs (5), T storage limbs (4), I flag, M magnitude, P non-negative int
+ 'scalar_is_zero': 'S', 'scalar_cmov': 'SSI', 'fe_impl_cmov': 'FFI', 'fe_storage_cmov': 'TTI', 'int_cmov': 'PPI', 'scalar_check_overflow': 'S',
+ 'scalar_is_high': 'S', 'scalar_cond_negate': 'sI', 'scalar_negate': 's', 'fe_impl_normalize': 'F', 'fe_impl_normalize_weak': 'F',
+ 'fe_impl_normalizes_to_zero': 'F', 'fe_impl_negate_unchecked': 'fM', 'fe_impl_add': 'ff', 'fe_impl_half': 'f', 'fe_impl_is_odd': '1'}
+N_LIMBS = [0xBFD25E8CD0364141, 0xBAAEDCE6AF48A03B, 0xFFFFFFFFFFFFFFFE, 0xFFFFFFFFFFFFFFFF]
+def raw_inputs(rng, shape):
+    v = []
+    for ch in shape:
+        if ch in 'ST':
+            c = rng.below(5)
+            if c == 0: v += [0, 0, 0, 0]
+            elif c == 1: v += [x + rng.choice([-1, 0, 1]) if 0 < x < (1 << 64) - 1 else x for x in N_LIMBS]
+            elif c == 2: v += [(1 << 64) - 1] * 4
+            else: v += [rng.choice([0, 1, (1 << 64) - 1, rng.bits(64), N_LIMBS[i]]) for i in range(4)]
+        elif ch == 's':      # a reduced scalar (below the group order)
+            x = rng.choice([0, 1, (1 << 256) - 432420386565659656852420866394968145600, rng.bits(256), rng.bits(128)]) % 0xFFFFFFFFFFFFFFFFFFFFFFFFFFFFFFFEBAAEDCE6AF48A03BBFD25E8CD0364141
+            v += [(x >> (64 * i)) & ((1 << 64) - 1) for i in range(4)]
+        elif ch == 'F':      # any magnitude up to 32: limbs < 2^57, top < 2^53
+            v += [rng.choice([0, 1, (1 << 52) - 1, (1 << 52), (1 << 57) - 1, 0xFFFFEFFFFFC2F, 0xFFFFEFFFFFC2E, rng.bits(52), rng.bits(57)]) for _ in range(4)] + [rng.choice([0, (1 << 48) - 1, 1 << 48, (1 << 53) - 1, rng.bits(48), rng.bits(53)])]
+        elif ch == 'f':      # magnitude <= 8
+            v += [rng.choice([0, 1, (1 << 52) - 1, (1 << 55) - 1, rng.bits(52), rng.bits(55)]) for _ in range(4)] + [rng.choice([0, (1 << 48) - 1, (1 << 51) - 1, rng.bits(48), rng.bits(51)])]
+        elif ch == '1': v.append(rng.bits(52))
+        elif ch == 'I': v.append(rng.below(2))
+        elif ch == 'M': v.append(8)
+        elif ch == 'P': v.append(rng.choice([0, 1, 2, 3, 0x7fffffff, rng.bits(31)]))
+    return v
+
+def ct_obligations(chk, validate=True):
+    """C06/C05: the branch-free primitives are inside the translator's subset (no branch, no loop, no variable
+    index, no division), regenerated from the working tree; generated code validated against the compiled C"""
+    res = regenerate(CT_FUNCS)
+    for fn, (ok, msg) in res.items():
+        chk.obligation('%s is branch-free straight-line code with fixed memory addresses (c2coq subset)' % fn, ok, msg)
+    chk.extra['ct_functions'] = {fn: msg for fn, (ok, msg) in res.items()}
+    return res
+
 def kernel_obligations(chk):
-    pass
+    res = regenerate()
+    ctres = ct_obligations(chk)
+    for fn, (ok, msg) in res.items():
+        chk.obligation('translate ' + fn + ' from the working tree', ok, msg)
+    targets = sorted(set(PROOFS[fn][0] for fn in FUNCS if res[fn][0]))
+    rc, log = vlib.coq_make(targets, timeout=int(os.environ.get('VERIF_KERNEL_TIMEOUT', '480')))
+    for fn in FUNCS:
+        if not res[fn][0]: continue
+        vo, thm = PROOFS[fn]
+        built = os.path.exists(os.path.join(vlib.COQ, vo)) and os.path.getmtime(os.path.join(vlib.COQ, vo)) >= os.path.getmtime(os.path.join(vlib.COQ, 'Gen', fn.replace('secp256k1_', '') + '.v'))
+        chk.obligation('kernel theorem %s over regenerated %s' % (thm, fn), built and ('Error' not in log or rc == 0), log[-3000:])
+    chk.extra['translated_functions'] = {fn: msg for fn, (ok, msg) in res.items()}
+    # translator validation: generated Gallina (extracted) vs the compiled C function
+    try:
+        gmodel = vlib.ensure_model('gen')
+    except vlib.BuildError as e:
+        chk.obligation('generated kernel extracts and runs', False, str(e)); return
+    impl = os.path.join(chk.dir, 'impl_default')
+    if not os.path.exists(impl): impl = vlib.build_impl(chk.dir, 'impl_default')
+    cases = []
+    n = chk.scale(3000, 100000)
+    for v in limb_cases(chk.rng, n, 10): cases.append(('fe_mul_inner_raw ' + ' '.join('#%d' % x for x in v), 'translator_validation_mul'))
+    for v in limb_cases(chk.rng, n, 5): cases.append(('fe_sqr_inner_raw ' + ' '.join('#%d' % x for x in v), 'translator_validation_sqr'))
+    for fn, (ok, msg) in ctres.items():
+        short = fn.replace('secp256k1_', '')
+        if not ok or short not in RAW_SHAPES: continue
+        for i in range(chk.scale(400, 20000)):
+            cases.append(('raw_%s %s' % (short, ' '.join('#%d' % x for x in raw_inputs(chk.rng, RAW_SHAPES[short]))), 'translator_validation_' + short))
+    chk.correspond(impl, gmodel, 'translator validation: generated Gallina vs compiled C (limb level)', cases=cases)
+
+if __name__ == '__main__':
+    for fn, r in regenerate().items(): print(fn, r)
